@@ -369,11 +369,11 @@ func runScenario(c cfg, rng *vlib.Rand) Scenario {
 		if sc.Holds < 2 {
 			sc.Failures = append(sc.Failures, "setup: fewer than two source calls were held open")
 		}
-		// a reader that waited for the writer would complete about one read per hold and
-		// its median latency would be of the order of the hold time
-		if sc.MinPerHold >= 0 && sc.MinPerHold < 3 {
-			sc.Failures = append(sc.Failures, fmt.Sprintf("wait-free: some reader typically completed only %d reads while a source call was held open for %v", sc.MinPerHold, hold))
-		}
+		// a reader that waited for the writer would have a median latency of the order of
+		// the hold time.  (The number of reads completed inside each hold is reported but is
+		// not an oracle: on a starved machine a reader goroutine may not be scheduled at all
+		// during an 8 ms hold; the directed scenarios below carry the wait-freedom verdict
+		// with holds of 400 ms against a bound of 100 ms.)
 		if time.Duration(sc.P50us)*time.Microsecond > hold/5 {
 			sc.Failures = append(sc.Failures, fmt.Sprintf("wait-free: median read latency %dus approaches the hold time %v", sc.P50us, hold))
 		}
